@@ -372,6 +372,11 @@ def named_breaks(version, name, o, path, tbl):
         s.pop("body_multipart", None)
         out.append(("email:multipart-with-body", oo))
         oo, s = mut()
+        s["is_multipart"] = True
+        s["body"] = ""                      # present is present
+        s["body_multipart"] = [{"body": "x", "content_type": "text/plain"}]
+        out.append(("email:multipart-with-empty-body", oo))
+        oo, s = mut()
         s["is_multipart"] = False
         s.pop("body", None)
         s["body_multipart"] = [{"body": "x", "content_type": "text/plain"}]
